@@ -23,7 +23,7 @@ ASSUMPTIONS = [
     "for a refused cross-project operation only: error class, no foreign pair recorded, tables consistent and unchanged for pairs not named by the op",
 ]
 REQUIRED_LABELS = {
-    "quick": ["reconnect_after_disconnect", "list_overlap", "freed_slot_middle", "cross_project", "self_loop", "mixed_disconnect_list", "other_project_linked", "save_midway", "cross_project_mixed_request", "mixed_request_with_noop_pair"],
+    "quick": ["reconnect_after_disconnect", "list_overlap", "freed_slot_middle", "cross_project", "self_loop", "mixed_disconnect_list", "other_project_linked", "save_midway", "cross_project_mixed_request", "mixed_request_with_noop_pair", "modules_at_positions_above_256"],
     "thorough": ["reconnect_after_disconnect", "list_overlap", "freed_slot_middle", "cross_project", "self_loop", "mixed_disconnect_list"],
 }
 
@@ -45,6 +45,8 @@ def plan(tier):
     n, per = (16, 60) if tier == "quick" else (16, 600)
     for i in range(n):
         descs.append({"kind": "random", "examples": per, "max_modules": 8 if tier == "quick" else 16, "max_ops": 30 if tier == "quick" else 50})
+    for i in range(2 if tier == "quick" else 8):
+        descs.append({"kind": "random", "big": True, "examples": 25 if tier == "quick" else 150, "max_modules": 8, "max_ops": 20})
     return descs
 
 
@@ -217,10 +219,14 @@ def run_overlap(ctx):
 
 
 @st.composite
-def op_list(draw, max_modules=8, max_ops=30, with_save_load=False):
+def op_list(draw, max_modules=8, max_ops=30, with_save_load=False, big=False):
     n0 = draw(st.integers(1, min(4, max_modules)))
     types = [draw(st.sampled_from(lm.LINK_TYPES)) for _ in range(n0)]
     n = n0 + 1  # + output
+    # big projects: `base` filler modules come first, so that the modules taking part in the history
+    # sit at positions just below / at / above 256 and 65536 is not needed to see 16-bit issues
+    base = draw(st.sampled_from([250, 254, 255, 256, 300])) if big else 0
+    valid = [0] + list(range(base + 1, base + n0 + 1))
     ops = []
     k = draw(st.integers(1, max_ops))
     kinds = ["rshift", "lshift", "rshift_dis", "lshift_dis", "rshift_list", "lshift_list", "chain_r", "chain_l", "mlist_r_dis", "mlist_r_list", "mlist_l_list", "chain_r_list", "chain_l_list", "connect", "connect_single", "x", "x", "xmix", "xmix", "xlink", "new"]
@@ -228,14 +234,15 @@ def op_list(draw, max_modules=8, max_ops=30, with_save_load=False):
     weights = weights + ["save", "save"]  # a user saves whenever they like; it must not disturb the tables
     if with_save_load:
         weights = weights + ["save_load", "save_load", "save_load", "save"]
-    idx = lambda: draw(st.integers(0, n - 1))  # noqa: E731
-    idxs = lambda lo=1, hi=4: draw(st.lists(st.integers(0, n - 1), min_size=lo, max_size=hi, unique=True))  # noqa: E731
+    idx = lambda: draw(st.sampled_from(valid))  # noqa: E731
+    idxs = lambda lo=1, hi=4: draw(st.lists(st.sampled_from(valid), min_size=lo, max_size=min(hi, len(valid)), unique=True))  # noqa: E731
     for _ in range(k):
         kind = draw(st.sampled_from(weights))
         if kind == "new":
             if n - 1 >= max_modules:
                 continue
             ops.append(["new", draw(st.sampled_from(lm.LINK_TYPES))])
+            valid.append(base + n)
             n += 1
         elif kind in ("rshift", "lshift", "rshift_dis", "lshift_dis"):
             ops.append([kind, idx(), idx()])
@@ -267,14 +274,17 @@ def op_list(draw, max_modules=8, max_ops=30, with_save_load=False):
             ops.append(["save_load"])
         elif kind == "save":
             ops.append(["save"])
-    return {"types": types, "ops": ops}
+    case = {"types": types, "ops": ops}
+    if base:
+        case["base"] = base
+    return case
 
 
 def run_ops(ctx, case, prop="C07", on_save_load=None):
     """Execute a recipe, checking the model after every step.  Returns label set."""
     from rv.errors import ModuleOwnershipError
 
-    world = lm.World(n_initial=len(case["types"]), types=case["types"])
+    world = lm.World(n_initial=len(case["types"]), types=case["types"], base=case.get("base", 0))
     E = set()
     ever_removed = set()
     labels = set()
@@ -383,11 +393,13 @@ def run_shard(ctx, desc):
             ctx.case()
             labels, _, _ = run_ops(ctx, case)
             ctx.label(*labels)
+            if case.get("base"):
+                ctx.label("modules_at_positions_above_256")
             if labels & {"reconnect_after_disconnect", "list_overlap", "freed_slot_middle"}:
                 ctx.mark_nontrivial(case)
             ctx.sample(case)
 
-        run_property(ctx, op_list(desc["max_modules"], desc["max_ops"]), body, desc["examples"], tag="ops")
+        run_property(ctx, op_list(desc["max_modules"], desc["max_ops"], big=desc.get("big", False)), body, desc["examples"], tag="ops_big" if desc.get("big") else "ops")
 
 
 def replay(ctx, doc):
